@@ -2117,6 +2117,15 @@ class DFA(fa.FA):
         if symbols_to_count is None:
             symbols_to_count = input_symbols
 
+        if input_symbols.isdisjoint(symbols_to_count):
+            # No symbol is counted: every string has counted length zero
+            if min_length <= 0 and (max_length is None or max_length >= 0):
+                return cls.universal_language(input_symbols)
+            return cls.empty_language(input_symbols)
+        if max_length is not None and max_length < max(min_length, 0):
+            # Empty range of lengths
+            return cls.empty_language(input_symbols)
+
         transitions = {}
         length_range = (
             range(min_length) if max_length is None else range(max_length + 1)
